@@ -2,6 +2,8 @@ pub mod allocator;
 pub mod concise;
 pub mod map;
 pub mod pool;
+#[cfg(feature = "verif")]
+pub mod verif;
 
 mod groups;
 
